@@ -1251,6 +1251,9 @@ int Interpret::interpPipe() {
             }
         }
     }
+    if (not done and (par > 0 or inString or inQuotedSymbol)) {
+        notify_formatted(true, "pipe reader: end of input inside a command");
+    }
     free(buf);
     return 0;
 }
